@@ -73,6 +73,23 @@ def check(ctx, fm, idx):
             ctx.violation("concrete", f"a batch of {batch} samples gives an array of shape {P.shape}, expected {(batch, n)}",
                           {"signature": "predict-shape", **sig_base})
             return
+        # a reconstruction handed to the caller is a value: later calls on other measurements of the same shape must not change it
+        # (a result living in a work buffer the model re-uses stops being the least-squares fit of ITS measurements, and
+        # predict(a), predict(b), predict(a+b) held together are no longer a linear family)
+        P_held = P.copy()
+        Y_other = Y + (np.max(np.abs(Y)) if np.any(Y) else 1.0) * np.array(
+            [[rng.choice([-2, -1, 0.5, 1, 3]) for _ in range(ns)] for _ in range(batch)])
+        try:
+            P_other = np.asarray(model.predict(Y_other))
+            model.predict(Y_other[0])
+        except Exception:
+            P_other = None
+        if not np.array_equal(P, P_held, equal_nan=True) or (P_other is not None and np.shares_memory(P, P_other)):
+            ctx.violation("concrete", "a reconstruction returned earlier changed when predict was called again with other "
+                          "measurements of the same shape (results share a buffer)",
+                          {"signature": "predict-result-aliased", **sig_base, "Y_other": Y_other.tolist()})
+            return
+        ctx.count("held_result_checked")
         # 1-D input = one-row batch
         p1 = np.asarray(model.predict(Y[0]))
         pb = np.asarray(model.predict(Y[0:1]))
